@@ -84,11 +84,13 @@ abbrev TTable (K : Type) := TBase → TRow K
 structure Pfx (K : Type) where
   sym : Name
   val : K
+deriving DecidableEq
 
 /-- a temperature unit: an optional SI prefix in front of a table symbol -/
 structure TU (K : Type) where
   pre : Option (Pfx K)
   base : TBase
+deriving DecidableEq
 
 /-- approximate equality as used by `Unit.__eq__` (`math.isclose`); exact equality at a lawful carrier -/
 class IsClose (K : Type) where
